@@ -161,7 +161,8 @@ impl<B: AsRef<[usize]> + BitLength, C: AsRef<[BlockCounters]>> Select9<Rank9<B, 
     pub fn new(rank9: Rank9<B, C>) -> Self {
         let num_bits = rank9.len();
         let num_words = num_bits.div_ceil(64);
-        let inventory_size = rank9.num_ones().div_ceil(Self::ONES_PER_INVENTORY);
+        let num_ones = rank9.num_ones();
+        let inventory_size = num_ones.div_ceil(Self::ONES_PER_INVENTORY);
 
         let u64_per_subinventory = 4;
         let subinventory_size = num_words.div_ceil(u64_per_subinventory);
@@ -173,7 +174,8 @@ impl<B: AsRef<[usize]> + BitLength, C: AsRef<[BlockCounters]>> Select9<Rank9<B, 
         let mut curr_num_ones = 0;
         let mut next_quantum = 0;
         for (i, word) in rank9.bits.as_ref().iter().copied().enumerate() {
-            let ones_in_word = word.count_ones() as usize;
+            // Bits beyond the length of the vector are arbitrary and must be ignored
+            let ones_in_word = (word.count_ones() as usize).min(num_ones - curr_num_ones);
 
             while curr_num_ones + ones_in_word > next_quantum {
                 let in_word_index = word.select_in_word(next_quantum - curr_num_ones);
